@@ -139,7 +139,7 @@ def world_for(case, variant):
                  for pth, t in files.items()}
     env = {'HOME': v.get('home', '/sim/home'), 'PWD': cwd}
     env.update(v.get('env', {}))
-    w = {'files': files, 'links': links, 'argv': argv, 'cwd': cwd, 'env': env,
+    w = {'files': files, 'links': links, 'argv': argv, 'cwd': cwd, 'env': env, 'faults': list(v.get('faults', [])),
          'encoding': v.get('encoding', 'utf-8'), 'stdout_encoding': v.get('stdout_encoding', 'utf-8'),
          'epoch': v.get('epoch', 1.7e9), 'set_seed': v.get('set_seed'), 'list_seed': v.get('list_seed'),
          'mtimes': {p: v['mtime_of'](i) for i, p in enumerate(sorted(files))} if callable(v.get('mtime_of')) else (
@@ -270,6 +270,10 @@ def check_case(case):
     obs['var'] = {'kind': o1['kind'], 'exit': o1['exit'], 'failed': o1['failed'], 'exc': (r1.get('exc') or '')[:120]}
     obs['gaps'] += r1.get('gaps', [])
     v = compare(o0, o1, case)
+    if variant.get('faults') and o1['failed']:
+        # a run that hit an injected I/O fault and said so is not one of the compared runs (how it fails is C14's
+        # business); one that hit the fault and still reports success must have produced the same outputs
+        v = []
     if v and o0['image'] is not None and o1['image'] is not None and o0['image'] != o1['image']:
         a, b = o0['image'], o1['image']
         obs['image_first_diff'] = next((i for i in range(min(len(a), len(b))) if a[i] != b[i]), min(len(a), len(b)))
@@ -456,6 +460,8 @@ def explore(subseed, cfg):
             out['harness'].append(f'variant run: {r1["kind"]} {r1.get("gaps")}')
             return
         vs = compare(o0, o1, case)
+        if variant.get('faults') and o1['failed']:
+            vs = []             # same rule as in check_case
         for vv in vs:
             out['violations'].append({'case': c, 'class': vv, 'group': group})
         nontrivial_sets = [s for s in r1.get('set_log', []) if s[2] != 'identity']
@@ -484,6 +490,16 @@ def explore(subseed, cfg):
             v['pre_list'] = ''.join(ch.swapcase() if ch.isascii() else ch for ch in o0['pretty_file'])[::-1]
         do(v, 'single:pre-same-size')
         pr['stale_output_same_size'] = pr.get('stale_output_same_size', 0) + 1
+    if not o0['failed']:
+        # "in every run": also in one whose output device accepts only part of a write (quota, full disk, size limit)
+        wopens = [(e[0], e[2]) for e in r0['events'] if e[1] == 'open' and any(ch in (e[3] or '') for ch in 'wax+')]
+        for idx, pth in wopens[:2]:
+            size = len(r0['files'].get(pth, ''))
+            if size > 1:
+                kk = rnd.choice([1, size // 2, size - 1])
+                do({'faults': [{'at': idx, 'kind': rnd.choice(['write_short_after', 'write_enospc_after']), 'k': kk}]},
+                   'fault')
+                pr['runs_with_short_or_failed_write'] = pr.get('runs_with_short_or_failed_write', 0) + 1
     for _ in range(cfg.get('variants', 10) - 6):
         do(gen_variant(rnd, ndirs), 'combo')
     # cross-process tier on a subset of worlds
